@@ -6,12 +6,12 @@
 namespace icall {
 using namespace Fastor;
 enum { SIMPLE = 0, SIMPLEPIV = 1, SIMPLELU = 2, SIMPLELUPIV = 3, BLOCKLU = 4, BLOCKLUPIV = 5, UT = 6, LUT = 7,
-       LAZY = 8, LAZYADD = 9, LAZYSUB = 10, LAZYMUL = 11, LAZYMULL = 12, EXPR = 13, UTEXPR = 14, LUTEXPR = 15, NVAR = 16 };
+       LAZY = 8, LAZYADD = 9, LAZYSUB = 10, LAZYMUL = 11, LAZYMULL = 12, EXPR = 13, UTEXPR = 14, LUTEXPR = 15, LAZYMULEQ = 16, NVAR = 17 };
 static const char* const names[NVAR] = {"simple", "simplepiv", "simplelu", "simplelupiv", "blocklu", "blocklupiv", "ut", "lut",
-    "lazy", "lazyadd", "lazysub", "lazymul", "lazymull", "expr", "utexpr", "lutexpr"};
+    "lazy", "lazyadd", "lazysub", "lazymul", "lazymull", "expr", "utexpr", "lutexpr", "lazymuleq"};
 // the strategy of the model a variant is compared with
 static const int base_of[NVAR] = {SIMPLE, SIMPLEPIV, SIMPLELU, SIMPLELUPIV, BLOCKLU, BLOCKLUPIV, UT, LUT,
-    SIMPLE, SIMPLE, SIMPLE, SIMPLE, SIMPLE, SIMPLE, UT, LUT};
+    SIMPLE, SIMPLE, SIMPLE, SIMPLE, SIMPLE, SIMPLE, UT, LUT, SIMPLE};
 static inline int variant_id(const std::string& s) { for (int i = 0; i < NVAR; ++i) if (s == names[i]) return i; return -1; }
 static inline bool is_piv(int s) { return s == SIMPLEPIV || s == SIMPLELUPIV || s == BLOCKLUPIV; }
 
@@ -33,6 +33,7 @@ ICALL(LAZYADD,     Tensor<T,n,n> Y(A); Y += inv(A); Tensor<T,n,n> X; for (size_t
 ICALL(LAZYSUB,     Tensor<T,n,n> Y(A); Y -= inv(A); Tensor<T,n,n> X; for (size_t k = 0; k < n*n; ++k) X.data()[k] = A.data()[k] - Y.data()[k]; return X;)
 ICALL(LAZYMUL,     Tensor<T,n,n> I = eye_<T,n>(); Tensor<T,n,n> X = inv(A) % I; return X;)
 ICALL(LAZYMULL,    Tensor<T,n,n> I = eye_<T,n>(); Tensor<T,n,n> X = I % inv(A); return X;)
+ICALL(LAZYMULEQ,   Tensor<T,n,n> Y(T(1)); Y *= inv(A); return Y;)   // element-wise compound product with the lazy inverse
 // the overloads for generic expressions
 ICALL(EXPR,        Tensor<T,n,n> Z(0); return inverse(A + Z);)
 ICALL(UTEXPR,      Tensor<T,n,n> Z(0); return tinverse<InvCompType::SimpleInv, UpLoType::Upper>(A + Z);)
